@@ -159,7 +159,7 @@ pub fn run(ctx: &mut Ctx, replay: Option<&[String]>) {
     }
     ctx.extra.insert("interleaver_shapes_exhaustive_up_to".into(), format!("{}x{} x both directions", maxs, maxs));
     // (b) random larger shapes, all element types, random values; indivisible lengths; C = 0
-    for _ in 0..ctx.scale(600, 20000) {
+    for _ in 0..ctx.scale(600, 150000) {
         let ty = *rng.pick(&[Ty::I64, Ty::F64, Ty::Gf2, Ty::U8]);
         let c = if rng.chance(1, 40) { 0 } else { rng.range(1, 40) };
         let r = rng.range(1, 40);
@@ -203,7 +203,7 @@ pub fn run(ctx: &mut Ctx, replay: Option<&[String]>) {
     }
     ctx.extra.insert("patterns_exhaustive_up_to_length".into(), format!("{} x block sizes 0..=5", maxp));
     // (d) random patterns/lengths incl. indivisible lengths, other element types
-    for _ in 0..ctx.scale(800, 20000) {
+    for _ in 0..ctx.scale(800, 150000) {
         let plen = rng.range(1, 12);
         let mut p: Vec<bool> = (0..plen).map(|_| rng.chance(2, 3)).collect();
         if !p.iter().any(|&b| b) {
